@@ -56,6 +56,8 @@ type msgGen struct {
 	feats map[string]bool
 	// anyInner lists message types usable inside Any
 	anyInner []string
+	// anyInnerDeep lists message types that themselves hold Any fields (an Any inside an Any)
+	anyInnerDeep []string
 	maxDepth int
 }
 
@@ -207,6 +209,9 @@ func (g *msgGen) anyPayload(depth int) (proto.Message, string) {
 		return nil, ""
 	}
 	name := g.anyInner[g.idx(len(g.anyInner))]
+	if depth < 2 && len(g.anyInnerDeep) > 0 && g.coin(4) {
+		name = g.anyInnerDeep[g.idx(len(g.anyInnerDeep))]
+	}
 	save := g.maxDepth
 	if g.maxDepth > depth+2 {
 		g.maxDepth = depth + 2
